@@ -132,19 +132,7 @@ def run_check(modname, tier, seed, workers=None):
         u['hfile'] = os.path.join(VERIF, 'harness', u['hfile']) if not os.path.isabs(u['hfile']) else u['hfile']
     log('[%s] %s tier=%s seed=%d: %d planned units' % (prop, modname, tier, seed, len(units)))
     units = expand_splits(units)
-    # reachability twins: the first unit of every harness function, with every assertion forced to fail
-    twins = []
-    by_fn = {}
-    for u in units:
-        by_fn.setdefault((u['hfile'], u['fname']), []).append(u)
-    for us in by_fn.values():
-        # up to 6 evenly spaced instances of every harness function (at least one must reach an assertion)
-        picks = sorted(set([len(us) - 1] + [int(i * (len(us) - 1) / 5) for i in range(6)]))
-        for i in picks:
-            t = dict(us[i])
-            t['twin'] = True
-            t['max_paths'] = 40
-            twins.append(t)
+    # reachability twins are chosen after the main run, among the instances that evaluated an assertion (see below)
     from symtex import parallel
     last = [time.time()]
 
@@ -166,8 +154,38 @@ def run_check(modname, tier, seed, workers=None):
                 extra_box.append({'problems': ['post-check failed: %r %s' % (e, traceback.format_exc()[-800:])]})
         th = threading.Thread(target=_post)
         th.start()
-    results, wall = parallel.run_units(twins + units, root=os.path.join(REPO, 'TexSoup'), workers=workers,
+    results, wall = parallel.run_units(units, root=os.path.join(REPO, 'TexSoup'), workers=workers,
                                        paths=[VERIF, REPO], progress=progress)
+    # reachability twins: for every harness function, up to 3 instances that evaluated at least one assertion are
+    # re-run with every assertion replaced by False; each must yield a violation that reproduces natively
+    by_unit = {}
+    for u in units:
+        by_unit[(os.path.basename(u['hfile']), u['fname'], repr(u['args']), repr(u.get('start')))] = u
+    cands = {}
+    for r in results:
+        if 'engine_error' in r or r['stats'].get('assert_queries', 0) == 0:
+            continue
+        key = (r['unit'][0], r['unit'][1])
+        cands.setdefault(key, []).append((r['paths'], r['unit']))
+    twins = []
+    for key, lst in cands.items():
+        lst.sort(key=lambda x: x[0])
+        for _, unit in lst[:3]:
+            u = by_unit.get((unit[0], unit[1], repr(unit[2]), repr(unit[3])))
+            if u is not None:
+                t = dict(u)
+                t['twin'] = True
+                t['max_paths'] = 25
+                twins.append(t)
+    fnames = set((os.path.basename(u['hfile']), u['fname']) for u in units)
+    twin_results = []
+    if twins:
+        twin_results, _ = parallel.run_units(twins, root=os.path.join(REPO, 'TexSoup'), workers=min(8, len(twins)),
+                                             paths=[VERIF, REPO])
+    results = list(results) + list(twin_results)
+    for key in fnames:
+        if key not in cands:
+            results.append({'unit': (key[0], key[1], (), None), 'twin': True, 'violations': [], 'status': {}, 'no_candidate': True})
     if th is not None:
         th.join()
     extra = extra_box[0] if extra_box else None
